@@ -5,7 +5,7 @@ from exact import *
 
 THEOREMS = ["Parmcb.C04." + t for t in ["c04_slices_partition", "c04_slice_bounds", "c04_slices_adjacent", "c04_minop_assoc", "c04_minop_comm",
             "c04_minop_ident", "c04_phase", "c04_pairs_same_order", "c04_pairs_layout_counterexample", "c04_collectives_aligned",
-            "c04_signed_mpi_end_to_end", "c04_fvs_trees_mpi_end_to_end", "c04_iso_trees_mpi_end_to_end"]]
+            "c04_signed_mpi_end_to_end", "c04_fvs_trees_mpi_end_to_end", "c04_iso_trees_mpi_end_to_end"]] + ["Parmcb.C02.c04_signed_mpi_heap_end_to_end"]
 ENTRIES = ["mpi_signed", "mpi_fvs", "mpi_fvs_tbb", "mpi_iso", "mpi_iso_tbb"]
 
 def mpirun(binary, P, text, timeout):
@@ -32,7 +32,7 @@ def run(tier, replay=None):
                        "literal layer: Model/MpiAlgo.lean is an end-to-end literal model of what rank 0 of the five MPI entry points computes; its correctness is PROVED for every P >= 1, every per-rank schedule, reduction tree and sort order (c04_*_mpi_end_to_end), with the literal searches / candidate builder inside; nothing in that model depends on a rank's memory layout",
                        "literal replay of mcb_sva_signed_mpi: every rank's parallel_reduce schedules are logged by the stand-in and gathered; per phase every rank's slice is reduced literally (literal heaps, forest-index enumeration) and what rank 0 emits must be a minimum-weight rank result (the reduction tree of boost::mpi::reduce is not observable, so ties between ranks are accepted either way)",
                        "per-rank heap layouts are sampled by the perturbation, not enumerated; after the repair the enumeration order of the signed edges is the ForestIndex order, which no layout can change (c04_pairs_same_order)"]
-    lean_ok = lean_gate(res, "Parmcb.Props.C04b", THEOREMS)
+    lean_ok = lean_gate(res, "Parmcb", THEOREMS)
     # the TBB regions inside every rank run under the deterministic stand-in (seeded per rank): reproducible, and
     # rank 0's support initialisation order is observable for the trace validation
     binary, log = compile_harness("h_mpi.cpp", cxx="mpic++", flags=("-DPARMCB_SHIM",), pre_includes=(os.path.join(VERIF, "harness", "tbbshim"),),
